@@ -405,9 +405,9 @@ def gen(ctx):
     for k in range(len(ALPHA)):
         yield 'request_block', {'jsonrpc_i': k}
         yield 'error_block', {'code_i': k}
+        yield 'response_block', {'jsonrpc_i': k}
     for k in range(len(REGISTERED_CODES)):
         yield 'error_block', {'code_i': len(ALPHA) + k}
-        yield 'response_block', {'jsonrpc_i': k}
     yield 'nonobjects', {}
     yield 'batch_level', {}
     n_req, n_resp = len(REQ_ELEMS), len(RESP_ELEMS)
